@@ -97,6 +97,10 @@ type dialResult struct {
 	done chan struct{}
 	conn *wsConnection
 	err  error
+
+	// abandoned is set when the dial failed while the dial leader's own context
+	// had ended: the error belongs to that subscriber, not to the upstream.
+	abandoned bool
 }
 
 // NewWSTransport creates a new WSTransport. Connections are not closed when ctx
@@ -208,6 +212,13 @@ func (t *WSTransport) getOrDial(ctx context.Context, opts common.Options) (*wsCo
 		}
 
 		if result.err != nil {
+			// The dial leader gave up because its own subscriber went away. That
+			// says nothing about the upstream: a waiter that is still live dials
+			// again (or joins the dial another waiter has started meanwhile).
+			if result.abandoned && ctx.Err() == nil {
+				return t.getOrDial(ctx, opts)
+			}
+
 			return nil, result.err
 		}
 
@@ -219,11 +230,20 @@ func (t *WSTransport) getOrDial(ctx context.Context, opts common.Options) (*wsCo
 	t.mu.Unlock()
 
 	conn, err := t.dial(ctx, key, opts)
+	if err == nil && ctx.Err() != nil {
+		// The leader's context ended while the dial was finishing. The websocket
+		// library may already have torn the connection down on its behalf, so it
+		// is not handed to the waiters.
+		conn.closeConn()
+		conn, err = nil, ctx.Err()
+	}
 
 	result.conn = conn
 	result.err = err
-	close(result.done)
+	result.abandoned = err != nil && ctx.Err() != nil
 
+	// Unregister the dial before waking the waiters, so that a waiter that dials
+	// again does not find this finished attempt.
 	t.mu.Lock()
 	delete(t.dialing, key)
 
@@ -231,6 +251,8 @@ func (t *WSTransport) getOrDial(ctx context.Context, opts common.Options) (*wsCo
 		t.conns[key] = conn
 	}
 	t.mu.Unlock()
+
+	close(result.done)
 
 	return conn, err
 }
